@@ -35,6 +35,35 @@ def run(ctx):
                 coros.append(diskrun.run_history(ctx, tree, kind, ops, n, random.Random(ctx.seed * 100003 + n), stop='clean', first_max=(5000, 15000, 30000)[j % 3]))
         return await escen.gather_limited(coros, limit=6)
     out = asyncio.run(main())
+    # I-layer: the clean swap.state writer (CleanLog.tla, model-checked here together with the variant that gives up at the first
+    # exhausted directory - which must violate WroteAll); the count squid logs is compared with the history's live entries
+    st = os.path.join(VERIF, 'spec', 'store')
+    r_ok = vlib.tlc(ctx, os.path.join(st, 'CleanLog.tla'), os.path.join(st, 'MC_CleanLog.cfg'), workers=2, label='cleanlog')
+    r_bad = vlib.tlc(ctx, os.path.join(st, 'CleanLog.tla'), os.path.join(st, 'MC_CleanLog_break.cfg'), workers=2, record=False, label='cleanlog-break')
+    if not r_ok.clean:
+        raise vlib.MachineryError('CleanLog.tla does not hold on its own model: %s' % r_ok.invariant)
+    if r_bad.invariant is None:
+        raise vlib.MachineryError('CleanLog.tla with GiveUpOnEmpty=TRUE no longer violates WroteAll: the model lost its teeth')
+    nd = 0
+    for o in out:
+        if o['kind'] == 'rock' or o.get('clean_log_entries') is None:
+            continue
+        live = {}
+        for e in o['ev']:
+            if e['e'] == 'Stored':
+                live[e['key']] = True
+            elif e['e'] in ('Purged', 'Produced'):
+                live[e['key']] = False
+            elif e['e'] == 'Stop':
+                break
+        nlive = sum(1 for v in live.values() if v)
+        if o['clean_log_entries'] != nlive:
+            nd += 1
+            if len(ctx.drift) < 5:
+                ctx.drift.append('clean swap.state (%s%s): squid wrote %d entries, the history has %d live completed entries: %s' % (
+                    o['kind'], ', two cache_dirs' if o.get('first_max') is not None else '', o['clean_log_entries'], nlive, o['ops']))
+    ctx.cov['clean_log_counts_compared'] = sum(1 for o in out if o['kind'] != 'rock' and o.get('clean_log_entries') is not None)
+    ctx.cov['clean_log_count_drift'] = nd
     rej = escen.validate(ctx, os.path.join(SPEC, 'Trace_Restart.tla'), os.path.join(SPEC, 'Trace_Restart.cfg'), [{'ev': diskrun.fill(o['ev'])} for o in out], 'restart')
     ctx.log('realised %d histories on %s; P-rejected %d' % (len(out), kinds, len(rej)))
     for i in rej[:5]:
